@@ -301,3 +301,5 @@ M('C10', 'decode-empty-data-as-some', ABI, '    if value.is_empty() {\n        N
 M('C10', 'decoder-unwraps', ABI, '                let decoded = DeployInterchainToken::abi_decode_params(&payload, true)\n                    .map_err(|_| ContractError::AbiDecodeFailed)?;', '                let decoded = DeployInterchainToken::abi_decode_params(&payload, true).unwrap();', 'C10.R7')
 M('C10', 'sol-layout-fields-reordered', ABI, '        bytes sourceAddress;\n        bytes destinationAddress;\n        uint256 amount;', '        bytes destinationAddress;\n        bytes sourceAddress;\n        uint256 amount;', 'C10.R4')
 M('C10', 'sol-tags-reordered', ABI, '        SendToHub,\n        ReceiveFromHub\n    }', '        ReceiveFromHub,\n        SendToHub\n    }', 'C10.R4')
+M('C10', 'decode-decimals-plus-one', ABI, '                    decimals: decoded.decimals,', '                    decimals: decoded.decimals.wrapping_add(1),', 'C10.R3')
+M('C10', 'encode-token-id-reversed', ABI, '                tokenId: FixedBytes::<32>::new(token_id.into()),\n                sourceAddress', '                tokenId: { let mut b: [u8; 32] = token_id.into(); b.reverse(); FixedBytes::<32>::new(b) },\n                sourceAddress', 'C10.R3')
